@@ -13,7 +13,7 @@ CLAUSES = {
     "C10.fixed": 20000,      # all loci fixed (integer counts) => usl == lsl == common GEBV
     "C10.lost": 25000,       # integer count 0 stays 0; reported frequency exactly 0/1 stays exactly 0/1
 }
-HOOKS_REQUIRED = ["mate calls", "select_taxa calls", "concat_taxa calls", "usl/lsl calls",
+HOOKS_REQUIRED = ["matings whose named parents are a proper subset of the matrix mated from", "mate calls", "select_taxa calls", "concat_taxa calls", "usl/lsl calls",
                   "fixed populations with ploidy*n not a power of two",
                   "transitions between ploidy*n a power of two and not a power of two",
                   "generations at a reciprocal-rounding-critical size"]
@@ -32,6 +32,9 @@ RULE = ("seeded closed breeding histories driven through the real classes: found
 ASSUME = ["the genomic breeding value of an individual is intercept + sum_j genotype_j * u_a[j]; the intercept is whatever "
           "gebv(...).unscale() adds (checked to be one constant per trait), and usl/lsl with unscale=True are compared with "
           "those values, usl/lsl with unscale=False with the values without intercept (gebv_numpy)",
+          "the population a cross descends from is the set of parents named in its cross table: when mate() is called on a "
+          "larger matrix, select_taxa(unique xconfig members) is observed as a generation of its own (85 % of matings) and the "
+          "progeny are judged against its limits and allele set (merged generations: side check of the progeny part)",
           "a closed history = mating among / selecting from / merging members of the current population only; the harness "
           "performs selection itself (index lists), the library performs mating, subsetting, merging, genotyping, limits",
           "float comparisons use |a-b| <= 1e-9*(ploidy*max_trait sum|u| + |intercept|) + 1e-12 on the safe side only",
@@ -145,7 +148,7 @@ def make_model(g, u, ntrait):
 
 
 # ---------------------------------------------------------------- observation of one generation
-def read_generation(ctx, mon, model, has_unscale, genotyper, pg, t, op, opsite, g):
+def read_generation(ctx, mon, model, has_unscale, genotyper, pg, t, op, opsite, g, icls=None):
     """Call the real usl/lsl/gebv/afreq on population ``pg`` through every input form and hand the numbers to the monitor."""
     mat = numpy.asarray(pg.mat)
     ploidy = int(mat.shape[0]); n = int(mat.shape[1])
@@ -207,7 +210,34 @@ def read_generation(ctx, mon, model, has_unscale, genotyper, pg, t, op, opsite, 
         ctx.hook("generations at a reciprocal-rounding-critical size")
     if mon.gens and O.is_pow2(mon.gens[-1].N) != O.is_pow2(ploidy * n):
         ctx.hook("transitions between ploidy*n a power of two and not a power of two")
-    return mon.observe(t, op, opsite, mat, ploidy, limits, afreqs, gsc, gun, offset), gref
+    return mon.observe(t, op, opsite, mat, ploidy, limits, afreqs, gsc, gun, offset, icls=icls), gref
+
+
+SUBSET_ICLS = "parents named in xconfig are a proper subset of the matrix mated from"
+
+
+def side_check_parents(ctx, mon, model, parents_pg, prog, site, op):
+    """Progeny that are merged with survivors: they still descend from the parents named in the cross table only.
+    (a) their GEBVs lie inside the limits of exactly those parents, (b) they carry no allele those parents lack."""
+    pm = numpy.asarray(parents_pg.mat).astype(numpy.int64); qm = numpy.asarray(prog.mat).astype(numpy.int64)
+    pc = pm.sum((0, 1)); qc = qm.sum((0, 1)); Np = pm.shape[0] * pm.shape[1]; Nq = qm.shape[0] * qm.shape[1]
+    w = lambda **kw: (lambda: dict({"operation": op, "history": list(mon.history), "parent_allele_count": pc, "progeny_allele_count": qc,
+                                    "u_a": mon.u}, **kw))
+    mon.chk("C10.lost", not numpy.any((pc == 0) & (qc != 0)), (site, SUBSET_ICLS), "allele 1 with integer count 0 stays absent", witness=w())
+    mon.chk("C10.lost", not numpy.any((pc == Np) & (qc != Nq)), (site, SUBSET_ICLS), "allele 0 with integer count 0 stays absent", witness=w())
+    try:
+        usl = numpy.asarray(model.usl(parents_pg), dtype=float).ravel(); lsl = numpy.asarray(model.lsl(parents_pg), dtype=float).ravel()
+        ctx.hook("usl/lsl calls", 2)
+    except Exception as e:
+        ctx.raised("usl/lsl (phased input)", e); return
+    gq = qm.sum(0) @ mon.u
+    tol = mon.tol(pm.shape[0], 0.0)
+    closed = not (numpy.any((pc == 0) & (qc != 0)) or numpy.any((pc == Np) & (qc != Nq)))
+    if closed:   # otherwise the same event was just reported under C10.lost
+        mon.chk("C10.bracket", bool(numpy.all(gq.max(0) <= usl + tol)), (site, SUBSET_ICLS), "usl of an ancestor population >= GEBV of every descendant",
+                witness=w(usl=usl, gebv_max=gq.max(0), tol=tol))
+        mon.chk("C10.bracket", bool(numpy.all(gq.min(0) >= lsl - tol)), (site, SUBSET_ICLS), "lsl of an ancestor population <= GEBV of every descendant",
+                witness=w(lsl=lsl, gebv_min=gq.min(0), tol=tol))
 
 
 # ---------------------------------------------------------------- selection rules (harness side)
@@ -327,6 +357,10 @@ def case_history(ctx, c, family="hist"):
                 surv = pg.select_taxa(keep); ctx.hook("select_taxa calls")
                 new = type(pg).concat_taxa([surv, prog]); ctx.hook("concat_taxa calls")
                 op = {"op": "merge", "survivors": keep.tolist(), "mating": op1}
+                par = numpy.unique(numpy.asarray(op1["xconfig"], dtype="int64"))
+                if len(par) < n:
+                    side_check_parents(ctx, mon, model, pg.select_taxa(par), prog, site1, op)
+                    ctx.hook("select_taxa calls"); ctx.hook("matings whose named parents are a proper subset of the matrix mated from")
                 pc = numpy.asarray(prog.mat).astype(numpy.int64).sum((0, 1))   # which step brought an allele back, if any?
                 inprog = bool(numpy.any(mon.lost0 & (pc != 0)) or numpy.any(mon.lost1 & (pc != prog.ntaxa * 2)))
                 site = site1 if inprog else O.defining_class(pg, "concat_taxa") + ".concat_taxa"
@@ -341,10 +375,26 @@ def case_history(ctx, c, family="hist"):
         except Exception as e:   # the property constrains results; a raising operation leaves the history where it was
             ctx.raised("history step %s" % kind, e)
             continue
+        icls_t = None
+        if op.get("op") == "mate" and g.random() < 0.85:
+            # the population a cross descends from is the set of parents named in the cross table: it is observed as a
+            # generation of its own (selection step), the progeny then have to stay inside *its* limits and allele set
+            par = numpy.unique(numpy.asarray(op["xconfig"], dtype="int64"))
+            if len(par) < n:
+                try:
+                    ppg = pg.select_taxa(par); ctx.hook("select_taxa calls")
+                    t += 1
+                    pop_ = {"op": "select_taxa", "rule": "parents named in the next cross table", "indices": par.tolist()}
+                    history.append(pop_)
+                    read_generation(ctx, mon, model, has_unscale, genotyper, ppg, t, pop_, O.defining_class(pg, "select_taxa") + ".select_taxa", g)
+                    icls_t = SUBSET_ICLS
+                    ctx.hook("matings whose named parents are a proper subset of the matrix mated from")
+                except Exception as e:
+                    ctx.raised("select_taxa (named parents)", e)
         t += 1
         history.append(op)
         pg = new
-        G, gref = read_generation(ctx, mon, model, has_unscale, genotyper, pg, t, op, site, g)
+        G, gref = read_generation(ctx, mon, model, has_unscale, genotyper, pg, t, op, site, g, icls=icls_t)
     seg = bool(numpy.any(mon.gens[0].present & ~mon.gens[0].fixed1)) or bool(numpy.any(u != 0))
     ctx.case("%s:%s" % (family, fcls if not chain else "ploidy %d/%s" % (ploidy, fcls)), mat0, u, beta, repr(history[1:]), trivial=(t == 0 or not seg))
     ctx.sumnote("generations observed", t + 1)
